@@ -157,6 +157,12 @@ class Scheduler:
                 p.thread.join(timeout=5)
 
 
+# Parent-side interrupt (a SIGINT delivered to the main process while it waits for progress
+# updates): the harness sets label / k; the k-th blocking `get` of that queue made by the parent
+# raises KeyboardInterrupt instead of returning an item (the item stays in the queue).
+PARENT_FAULT = {"label": None, "k": None, "count": 0, "fired": False}
+
+
 class FakeQueue:
     def __init__(self, sched, name):
         self.sched, self.name = sched, name
@@ -178,6 +184,12 @@ class FakeQueue:
     def get(self, block=True, timeout=None):
         if block:
             self.sched.point(f"{self.name}.get", block_pred=lambda: bool(self.items))
+            if self.sched.current == 0 and PARENT_FAULT["label"] == f"{self.name}.get":
+                k = PARENT_FAULT["count"]
+                PARENT_FAULT["count"] = k + 1
+                if k == PARENT_FAULT["k"] and not PARENT_FAULT["fired"]:
+                    PARENT_FAULT["fired"] = True
+                    raise KeyboardInterrupt
         else:
             self.sched.point(f"{self.name}.get_nowait")
         if not self.items:
